@@ -23,3 +23,88 @@ Proof.
     destruct (circuit_lift_all R rO rI radd rmul rsub ropp Rth omega half H32 H2 _ _ U G Hc Hp) as [p [Hp1 Hp2]];
     exists G, p; (split; [exact Hg | split; [exact Hp1 | exact Hp2]]).
 Qed.
+
+(* ---- MOV rows: state transfer in every ring with omega and a conjugation ---- *)
+Section MovLift.
+  Variable R : Type.
+  Variables (rO rI : R) (radd rmul rsub : R -> R -> R) (ropp : R -> R).
+  Hypothesis Rth : ring_theory rO rI radd rmul rsub ropp (@eq R).
+  Variables (omega half : R).
+  Hypothesis omega32 : opow R rI rmul omega 32 = ropp rI.
+  Hypothesis half2 : rmul (radd rI rI) half = rI.
+  (* a conjugation: ring endomorphism sending omega to omega^-1 and fixing 1/2 *)
+  Variable cj : R -> R.
+  Hypothesis cj_0 : cj rO = rO.
+  Hypothesis cj_1 : cj rI = rI.
+  Hypothesis cj_add : forall x y, cj (radd x y) = radd (cj x) (cj y).
+  Hypothesis cj_mul : forall x y, cj (rmul x y) = rmul (cj x) (cj y).
+  Hypothesis cj_opp : forall x, cj (ropp x) = ropp (cj x).
+  Hypothesis cj_omega : cj omega = opow R rI rmul omega 63.
+  Hypothesis cj_half : cj half = half.
+
+  Add Ring RringM : Rth.
+
+  Local Notation ev := (QMatLift.ev R rO rI radd rmul ropp omega half).
+  Local Notation mev := (map (map ev)).
+  Local Notation rmm := (rmmul R rO radd rmul).
+  Local Notation rkr := (rkron R rmul).
+  Local Notation rid := (rmid R rO rI).
+  Local Notation rk0 := (rket0 R rO rI).
+
+  Definition rmov_in (p : placement) : list (list R) :=
+    match p with PEC => rkr (rid 2) rk0 | _ => rkr rk0 (rid 2) end.
+  Definition rmov_out (p : placement) (phi : list (list R)) : list (list R) :=
+    match p with PEC => rkr phi (rid 2) | _ => rkr (rid 2) phi end.
+
+  (* in R: the circuit computed in R maps psi (x) |0> to phi0 (x) psi (resp. with the
+     roles of the wires exchanged) for one vector phi0 = (a, b) with |a|^2 + |b|^2 = 1 *)
+  Definition mov_transfers_in (r : nvrow) : Prop :=
+    exists (UR : list (list R)) (a b : R),
+      rcircuit R rO rI radd rmul ropp omega half 2 (r_seq r) = Some UR /\
+      rmm UR (rmov_in (r_place r)) = rmov_out (r_place r) [[a]; [b]] /\
+      radd (rmul (cj a) a) (rmul (cj b) b) = rI.
+
+  Lemma mov_row_lifts : forall r, r_gate r = VMov -> row_spec r -> mov_transfers_in r.
+  Proof.
+    intros r Hg Hs. unfold row_spec in Hs. rewrite Hg in Hs.
+    destruct Hs as [U [Inp [phi0 [Hc [Hin [Hd [Hsh [He Hn]]]]]]]].
+    (* phi0 is a column (a, b) *)
+    destruct phi0 as [|r1 [|r2 [|r3 rest]]]; try discriminate.
+    destruct r1 as [|a [|a' r1]]; try discriminate.
+    destruct r2 as [|b [|b' r2]]; try discriminate.
+    assert (Hla : (List.length (kc a) <= 64)%nat /\ (List.length (kc b) <= 64)%nat).
+    { unfold mshort in Hsh. cbn in Hsh. rewrite !andb_true_r in Hsh.
+      apply andb_true_iff in Hsh. destruct Hsh as [H1 H2].
+      split; apply Nat.leb_le; assumption. }
+    destruct Hla as [Hla Hlb].
+    assert (Hnw : n_wires (r_place r) = 2%nat /\
+                  mev Inp = rmov_in (r_place r) /\ dims_ok 4 2 Inp = true /\
+                  mev (mov_out (r_place r) [[a]; [b]]) = rmov_out (r_place r) [[ev a]; [ev b]]).
+    { unfold mov_in in Hin. destruct (r_place r); try discriminate.
+      - assert (HI : kron (mid 2) ket0 = Inp) by congruence. subst Inp.
+        split; [reflexivity|]. split; [|split; [reflexivity|]]; unfold rmov_in, rmov_out, mov_out;
+          rewrite (mev_kron R rO rI radd rmul rsub ropp Rth omega half omega32 half2),
+                  (mev_mid R rO rI radd rmul rsub ropp Rth omega half);
+          try rewrite (mev_ket0 R rO rI radd rmul rsub ropp Rth omega half); reflexivity.
+      - assert (HI : kron ket0 (mid 2) = Inp) by congruence. subst Inp.
+        split; [reflexivity|]. split; [|split; [reflexivity|]]; unfold rmov_in, rmov_out, mov_out;
+          rewrite (mev_kron R rO rI radd rmul rsub ropp Rth omega half omega32 half2),
+                  (mev_mid R rO rI radd rmul rsub ropp Rth omega half);
+          try rewrite (mev_ket0 R rO rI radd rmul rsub ropp Rth omega half); reflexivity. }
+    destruct Hnw as [Hn2 [Hin' [Hdi Hout]]]. rewrite Hn2 in Hc.
+    exists (mev U), (ev a), (ev b). split; [|split].
+    - exact (circuit_image R rO rI radd rmul rsub ropp Rth omega half omega32 half2 2 (r_seq r) U Hc).
+    - rewrite <- Hin', <- Hout. symmetry.
+      transitivity (mev (mmul U Inp)); [f_equal; symmetry; exact He|].
+      exact (mmul_lift_dims R rO rI radd rmul rsub ropp Rth omega half omega32 half2 3 2 U Inp Hdi).
+    - assert (Hn' : mev (mmul [[kconj a; kconj b]] [[a]; [b]]) = mev [[kone]]) by (f_equal; exact Hn).
+      rewrite (mmul_lift_dims R rO rI radd rmul rsub ropp Rth omega half omega32 half2 1 1 _ _ Hd) in Hn'.
+      cbn in Hn'. unfold QMatLift.ev in *.
+      rewrite (keval_kconj R rO rI radd rmul rsub ropp Rth omega half omega32 half2 cj
+                 cj_0 cj_1 cj_add cj_mul cj_opp cj_omega cj_half a Hla) in Hn'.
+      rewrite (keval_kconj R rO rI radd rmul rsub ropp Rth omega half omega32 half2 cj
+                 cj_0 cj_1 cj_add cj_mul cj_opp cj_omega cj_half b Hlb) in Hn'.
+      rewrite (keval_one R rO rI radd rmul rsub ropp Rth) in Hn'.
+      injection Hn' as Hn'. etransitivity; [|exact Hn']. ring.
+  Qed.
+End MovLift.
